@@ -1646,10 +1646,9 @@ Definition C07_all_n_statement : Prop := forall n k, k ∈ client_ids n -> C07_s
    are never set; the old host, while it still has its server after handling NewHost(k), is closing
    and stays so (old_host_closing, old_host_closing_persists), and closes as soon as a
    ClientDisconnected finds its client table empty (closing_closes).
-   MISSING for arbitrary n: (a) the decrease of [measure] for arbitrary n (termination), (b) "a stable
-   state is session_ok" -- it needs the progress invariants (the Promote / NewHost(k) / relayed NewHost(k)
-   is never lost before it is handled; a ClientDisconnected is pending whenever the closing old host's
-   table is empty), which are checked here only by exhaustive exploration for n <= 3. *)
+   The full statement for arbitrary n -- termination (the decrease of [measure]) and "a stable state is
+   session_ok" through the progress invariant -- is proved in PromotionMeasure.v and PromotionAllN.v
+   (C07_all_n, C07_all_n_promotion); the theorem below is what this file contributes to it. *)
 Theorem C07_all_n_partial :
   C07_statement 1 1 /\ C07_statement 2 1 /\ C07_statement 2 2 /\ C07_statement 3 1 /\
   forall n k tr s, k ∈ client_ids n -> all_internal tr -> run (promoted n k) tr = Some s ->
